@@ -66,7 +66,7 @@ def parse_type(toks, selfty):
     if last == 'BInt': return T_big('II')
     if last == 'bool': return BOOL
     if last in ('ExpType', 'u32'): return U32
-    if last == 'usize': return USIZE
+    if last == 'usize': return ('prim', 'usize')
     if last == 'Ordering': return ORD
     if last == 'Option' and gen is not None:
         return ('opt', parse_type(gen, selfty))
@@ -116,11 +116,56 @@ def lean_ident(s):
     if s in LEAN_RESERVED: return s + '_'
     return s
 
+# Lean terms of `Outcome` computations are kept as small trees until the end so that the monad laws can be applied
+# (bind (ok a) k = k a, bind panic k = panic, bind distributes over if/match: they are re-proved in the generated file):
+#   str | ('ok', str) | ('panic',) | ('ite', cond, A, B) | ('match', scrut, [(pat, bound names, body)]) | ('bind', m, var, body)
+def render(t):
+    if isinstance(t, str): return t
+    k = t[0]
+    if k == 'ok': return 'Bnum.Outcome.ok %s' % par(t[1])
+    if k == 'panic': return 'Bnum.Outcome.panic'
+    if k == 'ite': return 'if %s then %s else %s' % (t[1], render(t[2]), render(t[3]))
+    if k == 'match':
+        return '(match %s with%s)' % (t[1], ''.join(' | %s => %s' % (p, render(b)) for p, _, b in t[2]))
+    if k == 'bind': return 'Bnum.Outcome.bind %s (fun %s => %s)' % (par(render(t[1])), t[2], render(t[3]))
+    raise ValueError(k)
+
+def subst(t, x, s):
+    rx = re.compile(r'(?<![A-Za-z0-9_.\'])%s(?![A-Za-z0-9_\'])' % re.escape(x))
+    def go(t):
+        if isinstance(t, str): return rx.sub(lambda m: s, t)
+        k = t[0]
+        if k == 'ok': return ('ok', go(t[1]))
+        if k == 'panic': return t
+        if k == 'ite': return ('ite', go(t[1]), go(t[2]), go(t[3]))
+        if k == 'match': return ('match', go(t[1]), [(p, bn, go(b)) for p, bn, b in t[2]])
+        if k == 'bind': return ('bind', go(t[1]), t[2], go(t[3]))
+        raise ValueError(k)
+    return go(t)
+
+def mentions(t, name):
+    return re.search(r'(?<![A-Za-z0-9_.\'])%s(?![A-Za-z0-9_\'])' % re.escape(name), render(t)) is not None
+
+def bind_tree(m, x, inner):
+    """Outcome.bind m (fun x => inner) with the monad laws applied"""
+    if isinstance(m, tuple):
+        k = m[0]
+        if k == 'ok': return subst(inner, x, par(m[1]))
+        if k == 'panic': return m
+        if k == 'ite': return ('ite', m[1], bind_tree(m[2], x, inner), bind_tree(m[3], x, inner))
+        if k == 'bind': return ('bind', m[1], m[2], bind_tree(m[3], x, inner))
+        if k == 'match':
+            if not any(mentions(inner, bn) for _, bns, _ in m[2] for bn in bns):
+                return ('match', m[1], [(p, bns, bind_tree(b, x, inner)) for p, bns, b in m[2]])
+    return ('bind', m, x, inner)
+
 class V:
     __slots__ = ('term', 'ty', 'out')
     def __init__(self, term, ty, out=False):
         self.term = term; self.ty = ty; self.out = out
 
+PRIM_BITS = {'u8': 8, 'u16': 16, 'u64': 64, 'u128': 128, 'i8': 8, 'i16': 16, 'i32': 32, 'i64': 64, 'i128': 128,
+             'usize': 64, 'isize': 64}   # usize/isize: 64-bit target (the harness target), as in Model/Ops.lean
 CTX_NAMES = ('dbg', 'w', '_w', 'n', 'e', 'bw', 'T')
 PRELUDE_TRAITS = {'PartialEq', 'Eq', 'PartialOrd', 'Ord', 'Clone', 'Copy', 'Default', 'Into', 'From', 'TryFrom', 'TryInto',
                   'AsRef', 'AsMut', 'Iterator', 'ToString', 'ToOwned', 'Drop', 'Fn', 'FnMut', 'FnOnce', 'Sized', 'Send', 'Sync'}
@@ -136,27 +181,53 @@ class Symbols:
         self.ops = symbols.get('ops', {})
         self.prim_methods = symbols.get('prim_methods', {})
         self.aliases = symbols.get('aliases', {})
+        self.free_fns_special = symbols.get('free_fns_special', {})
+        self.prim_fns = symbols.get('prim_fns', {})
 
-    def lean_for_key(self, key):
-        """-> lean constant name or None"""
+    KEY_RE = re.compile(r'^(r?)(UI|II)::(?:([A-Za-z_0-9]+)(?:<(.*)>)?::)?([A-Za-z_0-9]+)$')
+    PRIMS = ('u8', 'u16', 'u32', 'u64', 'u128', 'usize', 'i8', 'i16', 'i32', 'i64', 'i128', 'isize')
+
+    def lookup(self, key):
+        """-> {'lean': const, 'pre': [terms], 'post': [terms]} or None"""
         ent = self.fn_map.get(key)
         if ent is not None:
             if ent == '': return None
-            return ent if isinstance(ent, str) else ent.get('lean')
-        parts = key.split('::')
-        if len(parts) == 2 and parts[0] in ('UI', 'II'):
-            c = 'Bnum.%s.%s' % (parts[0], camel(parts[1]))
-            if c in self.sigs: return c
-            return None
-        if len(parts) == 3 and parts[0] in ('UI', 'II'):
-            tr = parts[1].split('<')[0]
-            for rule in self.trait_rules:
-                if tr in rule['traits'] and (not rule.get('args') or parts[1] in rule['args']):
-                    tmpl = rule.get(parts[0])
-                    if tmpl:
-                        c = tmpl.replace('{camel}', camel(parts[2]))
-                        if c in self.sigs: return c
+            if isinstance(ent, str): ent = {'lean': ent}
+            return {'lean': ent['lean'], 'pre': list(ent.get('pre', [])), 'post': list(ent.get('post', []))}
+        m = self.KEY_RE.match(key)
+        if not m: return None
+        sref, kind, trait, targs, method = m.groups()
+        if trait is None:
+            if sref: return None
+            c = 'Bnum.%s.%s' % (kind, camel(method))
+            return {'lean': c, 'pre': [], 'post': []} if c in self.sigs else None
+        targs = targs or ''
+        aref = targs.startswith('r') and targs[1:] in self.PRIMS + ('UI', 'II')
+        base = targs[1:] if aref else targs
+        classes = set()
+        if targs == '': classes.update(('none', 'same'))
+        if base == kind: classes.add('same')
+        if base in ('UI', 'II'): classes.add('big')
+        if base in self.PRIMS: classes.add('prim')
+        classes.add('any')
+        for rule in self.trait_rules:
+            if trait not in rule['traits']: continue
+            if rule.get('arg', 'any') not in classes: continue
+            if rule.get('self') == 'val' and sref: continue
+            sub = {'m': camel(method), 'op': camel(method[:-7]) if method.endswith('_assign') else camel(method),
+                   's': 'r' if sref else 'v', 'a': 'r' if aref else 'v', 'Ref': 'Ref' if aref else '',
+                   'prim': base, 'ks': 'true' if base == 'II' else 'false', 'K': kind[0], 'kind': kind}
+            def fill(t):
+                for k2, v2 in sub.items(): t = t.replace('{%s}' % k2, v2)
+                return t
+            c = fill(rule['lean'])
+            if c in self.sigs:
+                return {'lean': c, 'pre': [fill(x) for x in rule.get('pre', [])], 'post': [fill(x) for x in rule.get('post', [])]}
         return None
+
+    def lean_for_key(self, key):
+        r = self.lookup(key)
+        return r['lean'] if r else None
 
 # ------------------------------------------------------------------------------------------------ crate-level tables
 class FnTable:
@@ -206,9 +277,9 @@ class Seq:
         self.binds = []
 
 class Translator:
-    def __init__(self, table, syms, f, lhs_const):
+    def __init__(self, table, syms, f, lhs_const, lhs_pre=(), lhs_post=()):
         self.tb = table; self.sy = syms; self.f = f
-        self.lhs = lhs_const
+        self.lhs = lhs_const; self.lhs_pre = list(lhs_pre); self.lhs_post = list(lhs_post)
         self.sig = syms.sigs[lhs_const]
         self.counter = 0
         self.ctx_used = []          # ordered ctx variable names used
@@ -253,7 +324,7 @@ class Translator:
         return V(x, v.ty, False)
 
     def ok(self, term):
-        return 'Bnum.Outcome.ok %s' % par(term)
+        return ('ok', term)
 
     def finalize(self, seq, v, force=False):
         if not v.out and seq.binds and v.term == seq.binds[-1][0]:
@@ -263,7 +334,7 @@ class Translator:
         elif seq.binds or force: inner = self.ok(v.term)
         else: return v
         for x, tm in reversed(seq.binds):
-            inner = 'Bnum.Outcome.bind %s (fun %s => %s)' % (par(tm), x, inner)
+            inner = bind_tree(tm, x, inner)
         return V(inner, v.ty, True)
 
     def join(self, vs):
@@ -273,6 +344,10 @@ class Translator:
         for v in vs:
             if v.ty != NEVER: ty = v.ty; break
         return terms, out, ty
+
+    def ite(self, cond, terms, ty, out):
+        if out: return V(('ite', cond, terms[0], terms[1]), ty, True)
+        return V('if %s then %s else %s' % (cond, terms[0], terms[1]), ty, False)
 
     # ---------------------------------------------------------------- entry point
     def translate_fn(self):
@@ -299,7 +374,7 @@ class Translator:
             if g and is_id(g[0], 'const') and len(g) >= 4:
                 cgen.append((lean_ident(g[1].s), parse_type(g[3:], self.selfty)))
         explicit = [p for p in self.sig['params'] if p[0] == '(']
-        nvals = len(rust_vals) + len(cgen)
+        nvals = len(rust_vals) + len(cgen) + len(self.lhs_pre) + len(self.lhs_post)
         if len(explicit) < nvals:
             raise Unsupported('model constant %s takes %d explicit arguments, the Rust function has %d parameters'
                               % (self.lhs, len(explicit), nvals))
@@ -307,7 +382,7 @@ class Translator:
         for p in ctx:
             if p[1] not in CTX_NAMES:
                 raise Unsupported('model constant %s: leading parameter `%s` is not a known context parameter' % (self.lhs, p[1]))
-        vals = explicit[len(explicit) - nvals:]
+        vals = explicit[len(explicit) - nvals + len(self.lhs_pre):len(explicit) - len(self.lhs_post)]
         lhs_ctx_names = [p[1] for p in ctx]
         # N
         if 'n' in lhs_ctx_names: self.n_term = 'n'
@@ -320,9 +395,13 @@ class Translator:
         for p in ctx:
             lhs_args.append(self.ctx_term(p[1]))
         names = []
+        for x in self.lhs_pre:
+            x = self.fill_ctx(x); lhs_args.append(x); self.note_consts(x)
         for (nm, ty), lp in zip(cgen + rust_vals, vals):
             names.append((nm, lp[2], ty))
             lhs_args.append(nm)
+        for x in self.lhs_post:
+            x = self.fill_ctx(x); lhs_args.append(x); self.note_consts(x)
         for nm, ty in cgen: env[nm] = V(nm, ty)
         if f.recv: env['self'] = V('self', self.tb.recv_type(f))
         idx = 1 if f.recv else 0
@@ -338,6 +417,7 @@ class Translator:
             raise Unsupported('translated body can panic (Outcome) but the model constant %s is total' % self.lhs)
         if lean_out and not v.out:
             v = V(self.ok(v.term), v.ty, True)
+        v = V(render(v.term), v.ty, v.out)
         self.consts_used.add(self.lhs)
         return {'lhs': '%s %s' % (self.lhs, ' '.join(par(a) for a in lhs_args)) if lhs_args else self.lhs,
                 'rhs': v.term, 'binders': names, 'ctx': list(self.ctx_used), 'consts': set(self.consts_used),
@@ -407,7 +487,7 @@ class Translator:
                 a = self.sub_stmts(filt(True), tail, env, tailpos)
                 b = self.sub_stmts(filt(False), tail, env, tailpos)
                 terms, out, ty = self.join([a, b])
-                return V('if %s then %s else %s' % (dbg, terms[0], terms[1]), ty, out)
+                return self.ite(dbg, terms, ty, out)
             kind = st[0]
             if kind == 'item':
                 if st[1] == 'use': i += 1; continue
@@ -434,7 +514,14 @@ class Translator:
                 if e[1] is None: return V('()', UNIT)
                 return self.expr(e[1], env, seq)
             if e[0] == 'macro' and self.is_panic_macro(e):
-                return V('Bnum.Outcome.panic', NEVER, True)
+                return V(('panic',), NEVER, True)
+            if e[0] == 'macro' and e[1][-1] == 'assert':
+                parts = split_commas(e[2].ch)
+                cast = tr_parse.P(list(parts[0])).whole_expr()
+                # assert!(c, …)  ==  if !c { panic!(…) }
+                ife = ('if', ('unary', '!', ('paren', cast)), ('block', [('expr', ('macro', ['panic'], e[2]), True, [])], None, False), None)
+                stmts = stmts[:i] + [('expr', ife, False, [])] + rest
+                continue
             if e[0] == 'macro':
                 ex = self.expand_expr_macro(e)
                 if ex is not None:
@@ -450,7 +537,7 @@ class Translator:
                     eb = e[3] if e[3][0] == 'block' else ('block', [('expr', e[3], False, [])], None, False)
                     els = self.sub_stmts(self.as_stmts(eb) + rest, tail, env, tailpos)
                 terms, out, ty = self.join([thn, els])
-                return V('if %s then %s else %s' % (cond, terms[0], terms[1]), ty, out)
+                return self.ite(cond, terms, ty, out)
             if e[0] == 'block':
                 stmts = stmts[:i] + self.as_stmts(e) + rest
                 continue
@@ -466,7 +553,7 @@ class Translator:
         if tail is None:
             return V('()', UNIT)
         if tail[0] == 'macro' and self.is_panic_macro(tail):
-            return V('Bnum.Outcome.panic', NEVER, True)
+            return V(('panic',), NEVER, True)
         return self.expr(tail, env, seq, tailpos)
 
     def is_self_place(self, e):
@@ -560,13 +647,19 @@ class Translator:
     def template(self, tmpl, args, ty, kind=None):
         """tmpl: {"lean": const, "out": bool}; ctx from signature"""
         c = tmpl['lean']
-        return self.apply_const(c, args, ty, kind=kind, pre=tmpl.get('pre', []))
+        return self.apply_const(c, args, ty, kind=kind, pre=tmpl.get('pre', []), post=tmpl.get('post', []))
 
-    def apply_const(self, c, args, ty, kind=None, pre=(), cargs=()):
+    def fill_ctx(self, t):
+        if '{w}' in t: t = t.replace('{w}', self.use_ctx('w'))
+        if '{N}' in t: t = t.replace('{N}', par(self.N()))
+        return t
+
+    def apply_const(self, c, args, ty, kind=None, pre=(), cargs=(), post=()):
         sig = self.sy.sigs.get(c)
         if sig is None: raise Unresolved('Lean constant %s not in the signature table' % c)
         explicit = [p for p in sig['params'] if p[0] == '(']
-        nvals = len(args) + len(pre) + len(cargs)
+        pre = [self.fill_ctx(x) for x in pre]; post = [self.fill_ctx(x) for x in post]
+        nvals = len(args) + len(pre) + len(cargs) + len(post)
         if len(explicit) < nvals:
             raise Unsupported('Lean constant %s has %d explicit parameters, call site passes %d' % (c, len(explicit), nvals))
         ctx = explicit[:len(explicit) - nvals]
@@ -579,6 +672,8 @@ class Translator:
             parts.append(par(x)); self.note_consts(x)
         for a in cargs: parts.append(par(a.term))
         for a in args: parts.append(par(a.term))
+        for x in post:
+            parts.append(par(x)); self.note_consts(x)
         self.consts_used.add(c)
         return V(' '.join(parts), ty, sig['ret'].startswith('Bnum.Outcome'))
 
@@ -613,6 +708,11 @@ class Translator:
             src = strip_ref(v.ty)
             if src in (U32, INT) and tgt in (U32, USIZE): return V(v.term, tgt)
             if src == USIZE and tgt in (USIZE, U32): return V(v.term, tgt)   # only compile-time sizes (N, BITS) have type usize
+            if src == USIZE and False: pass
+            if src[0] == 'prim' and src[1] in PRIM_BITS and tgt == U32:
+                # `x as ExpType` of a primitive integer: the (trusted) leaf `PInt.cast bits signed 32`
+                self.consts_used.add('Bnum.PInt.cast')
+                return V('Bnum.PInt.cast %d %s 32 %s' % (PRIM_BITS[src[1]], 'true' if src[1][0] == 'i' else 'false', par(v.term)), U32)
             raise Unsupported('cast from %s to %s' % (src[0] if src[0] != 'prim' else src[1], text(e[2])))
         if k == 'field':
             v = self.pure(self.expr(e[1], env, seq), seq)
@@ -630,12 +730,12 @@ class Translator:
             if e[3] is None: raise Unsupported('`if` without `else` used as a value')
             b = self.block(e[3], env, tailpos) if e[3][0] == 'block' else self.finalize_expr(e[3], env, tailpos)
             terms, out, ty = self.join([a, b])
-            return V('if %s then %s else %s' % (cond, terms[0], terms[1]), ty, out)
+            return self.ite(cond, terms, ty, out)
         if k == 'match': return self.match(e, env, seq, tailpos)
         if k == 'call': return self.call(e, env, seq)
         if k == 'mcall': return self.mcall(e, env, seq)
         if k == 'macro':
-            if self.is_panic_macro(e): return V('Bnum.Outcome.panic', NEVER, True)
+            if self.is_panic_macro(e): return V(('panic',), NEVER, True)
             ex = self.expand_expr_macro(e)
             if ex is None: raise Unsupported('macro `%s!`' % '::'.join(e[1]))
             self.macro_depth += 1
@@ -738,6 +838,8 @@ class Translator:
         if op in self.CMP:
             return self.cmp_values(op, l, r, seq)
         lt, rt = strip_ref(l.ty), strip_ref(r.ty)
+        if lt == BOOL and rt == BOOL and op in ('^', '&', '|'):
+            return V('(%s %s %s)' % (par(l.term), {'^': '^^', '&': '&&', '|': '||'}[op], par(r.term)), BOOL)
         if is_big(lt):
             tr, m = self.OPTRAIT[op]
             return self.op_trait(tr, m, [l, r])
@@ -782,6 +884,7 @@ class Translator:
                 v = self.pure(self.expr(args_ast[0], env, seq), seq)
                 return V('some %s' % par(v.term), ('opt', v.ty))
             if nm in ('Ok', 'Err'): raise Unsupported('Result constructor')
+            if nm in self.sy.free_fns_special: pass
             f = self.tb.free.get(nm)
             if f is None: raise Unresolved('free function `%s`' % nm)
             args = [self.pure(self.expr(a, env, seq), seq) for a in args_ast]
@@ -800,6 +903,18 @@ class Translator:
                     raise Unsupported('generic argument `%s`' % text(g))
         args = [self.pure(self.expr(a, env, seq), seq) for a in args_ast]
         tyname = names[-2]; mname = names[-1]
+        if len(names) == 2 and tyname in ('ExpType', 'u32') and len(args) == 1:
+            at = strip_ref(args[0].ty)
+            cls = 'prim' if at[0] == 'prim' else ('big' if is_big(at) else None)
+            ent = self.sy.prim_fns.get('u32::%s<%s>' % (mname, cls)) if cls else None
+            if ent is None: raise Unresolved('function `%s::%s` on %s' % (tyname, mname, norm_ty_key(at)))
+            sub = {'{prim}': at[1] if cls == 'prim' else '', '{ks}': 'true' if at == T_big('II') else 'false'}
+            def fill(t):
+                for a, b in sub.items(): t = t.replace(a, b)
+                return t
+            rty = {'res_u32': ('res', U32, ''), 'opt_u32': ('opt', U32), 'u32': U32}[ent['ty']]
+            self.callees.append('u32::%s<%s>' % (mname, norm_ty_key(at)))
+            return self.apply_const(ent['lean'], args, rty, pre=[fill(x) for x in ent.get('pre', [])], post=[fill(x) for x in ent.get('post', [])])
         k = self.kind_of_type_name(tyname)
         if k is not None and len(names) == 2:
             if '%s::%s' % (k, mname) in self.sy.identity:
@@ -822,8 +937,9 @@ class Translator:
                 if not self.ty_compat(rt, args[0].ty): continue
                 if targs is not None:
                     want = ','.join(norm_ty_key(parse_type(t, self.selfty)) for t in targs)
-                    if (g.trait_args or '') != want: continue
+                    if (g.trait_args or norm_ty_key(self.tb.self_type(g))) != want: continue
                 cands.append(g)
+            cands = self.by_arg_types(cands, args)
             cands = self.uniq_by_lean(cands)
             if len(cands) != 1: raise Unresolved('trait call %s::%s' % (tyname, mname))
             return self.call_fn(cands[0], args, cargs)
@@ -837,6 +953,18 @@ class Translator:
             if self.ty_compat(want[1], got[1]): return True
             if got[1][0] == 'ref': return self.ty_compat(want, got[1])
         return False
+
+    def by_arg_types(self, cands, args):
+        """keep the candidates whose parameter types accept the argument types (receiver = args[0])"""
+        if len(cands) <= 1: return cands
+        out = []
+        for g in cands:
+            ptys = self.tb.param_types(g)
+            rest = args[1:] if g.recv else args
+            if len(ptys) != len(rest): continue
+            if all(self.ty_compat(pt, a.ty) for pt, a in zip(ptys, rest)):
+                out.append(g)
+        return out or cands
 
     def uniq_by_lean(self, cands):
         seen = {}
@@ -862,9 +990,12 @@ class Translator:
                     ast = tr_parse.P(list(g)).whole_expr()
                     if ast[0] != 'lit': raise Unsupported('generic argument `%s`' % text(g))
                     cargs.append(self.expr(ast, env, seq))
-            f = self.resolve_method(recv.ty, name)
+            f = self.resolve_method(recv.ty, name, [recv] + args)
             if f is None: raise Unresolved('method `%s` on %s' % (name, norm_ty_key(recv.ty)))
             return self.call_fn(f, [recv] + args, cargs)
+        if base[0] == 'opt' and name == 'unwrap_unchecked' and not args_ast:
+            # `unwrap_unchecked()`: undefined behaviour on `None`; the model keeps the `Option` visible (identity)
+            return V(recv.term, base)
         # methods of primitive values
         args = [self.pure(self.expr(a, env, seq), seq) for a in args_ast]
         key = '%s::%s' % (base[0] if base[0] != 'prim' else base[1], name)
@@ -873,7 +1004,7 @@ class Translator:
         rty = {'u32': U32, 'bool': BOOL, 'opt_u32': ('opt', U32)}[ent['ty']]
         return self.apply_const(ent['lean'], [recv] + args, rty)
 
-    def resolve_method(self, recv_ty, name):
+    def resolve_method(self, recv_ty, name, args=None):
         """Rust method probing restricted to the crate's own impls for BUint / BInt"""
         chain = [recv_ty]
         while chain[-1][0] == 'ref': chain.append(chain[-1][1])
@@ -887,6 +1018,7 @@ class Translator:
                     return f
                 found = [g for g in self.tb.traitfns.get(name, [])
                          if g.recv and self.tb.recv_type(g) == cand and self.trait_in_scope(g.trait)]
+                if args is not None: found = self.by_arg_types(found, args)
                 found = self.uniq_by_lean(found)
                 if len(found) == 1: return found[0]
                 if len(found) > 1:
@@ -896,8 +1028,9 @@ class Translator:
     def call_fn(self, f, args, cargs):
         """call of a crate function `f` (FnItem of a BUint/BInt impl)"""
         key = f.key
-        c = self.sy.lean_for_key(key)
-        if c is None: raise Unresolved('no model constant for `%s`' % key)
+        ent = self.sy.lookup(key)
+        if ent is None: raise Unresolved('no model constant for `%s`' % key)
+        c = ent['lean']
         self.callees.append(key)
         n_expected = len(f.params) + (1 if f.recv else 0)
         if len(args) != n_expected:
@@ -905,7 +1038,7 @@ class Translator:
         ret = self.tb.ret_type(f)
         if f.recv == 'refmut' and ret == UNIT:
             ret = strip_ref(self.tb.self_type(f))
-        return self.apply_const(c, args, ret, kind=f.self_kind, cargs=cargs)
+        return self.apply_const(c, args, ret, kind=f.self_kind, cargs=cargs, pre=ent['pre'], post=ent['post'])
 
     def call_free(self, f, args):
         key = 'fn::' + f.name
@@ -932,10 +1065,11 @@ class Translator:
             s = self.pure(self.expr(scrut_ast, env, seq), seq)
             scrut_terms = [s.term]; stys = [strip_ref(s.ty)]
             multi = False
-        pats = []; bodies = []
+        pats = []; bodies = []; bounds = []
         for pat, guard, body in arms:
             if guard is not None: raise Unsupported('match guard')
             env2 = dict(env)
+            before = dict(env2)
             if multi:
                 if pat[0] == 'pwild': ptxt = ', '.join('_' for _ in stys)
                 elif pat[0] == 'ptuple' and len(pat[1]) == len(stys):
@@ -944,10 +1078,14 @@ class Translator:
             else:
                 ptxt = self.pat(pat, stys[0], env2)
             pats.append(ptxt)
+            bounds.append([v.term for k2, v in env2.items() if before.get(k2) is not v])
             if body[0] == 'block': bodies.append(self.block(body, env2, tailpos))
             else: bodies.append(self.finalize_expr(body, env2, tailpos))
         terms, out, ty = self.join(bodies)
-        txt = 'match %s with' % ', '.join(scrut_terms)
+        scr = ', '.join(scrut_terms)
+        if out:
+            return V(('match', scr, list(zip(pats, bounds, terms))), ty, True)
+        txt = 'match %s with' % scr
         for p, t in zip(pats, terms):
             txt += ' | %s => %s' % (p, t)
         return V('(' + txt + ')', ty, out)
@@ -967,6 +1105,10 @@ class Translator:
         if k == 'pts':
             if p[1] == 'Some' and ty[0] == 'opt' and len(p[2]) == 1:
                 return 'some %s' % self.patp(p[2][0], ty[1], env)
+            if p[1] == 'Ok' and ty[0] == 'res' and len(p[2]) == 1:
+                return 'some %s' % self.patp(p[2][0], ty[1], env)
+            if p[1] == 'Err' and ty[0] == 'res' and len(p[2]) == 1 and p[2][0][0] == 'pwild':
+                return 'none'
             raise Unsupported('pattern %s(..)' % p[1])
         if k == 'ppath':
             if p[1] == 'None' and ty[0] == 'opt': return 'none'
